@@ -20,6 +20,10 @@ int ref_compress(int codec, const uint8_t* in, size_t n, ref_buf* out) {
         ZSTD_CCtx* c = ZSTD_createCCtx(); if (!c) return -1; ZSTD_CCtx_setParameter(c, ZSTD_c_contentSizeFlag, 0); ZSTD_CCtx_setParameter(c, ZSTD_c_compressionLevel, 3);
         size_t cap = ZSTD_compressBound(n) + 64; uint8_t* tmp = malloc(cap); ZSTD_outBuffer ob = { tmp, cap, 0 }; ZSTD_inBuffer ib = { in, n, 0 }; size_t r = ZSTD_compressStream2(c, &ob, &ib, ZSTD_e_end); ZSTD_freeCCtx(c);
         if (ZSTD_isError(r) || r != 0) { free(tmp); return -1; } ref_buf_put(out, tmp, ob.pos); free(tmp); return 0; }
+    if (ref_compress_form == 2 && (codec == CODEC_SNAPPY || codec == CODEC_LZ4 || codec == CODEC_LZ4_RAW)) {      /* greedy matcher: real copies at many distances */
+        size_t at = out->n; int rc = codec == CODEC_SNAPPY ? ref_snappy_compress_greedy(in, n, out) : ref_lz4_compress_greedy(in, n, out); if (rc) return rc;
+        uint8_t* chk = malloc(n + 1); size_t on = 0; int d = codec == CODEC_SNAPPY ? ref_snappy_decode(out->p + at, out->n - at, chk, n, &on) : ref_lz4_decode(out->p + at, out->n - at, chk, n, &on, true);
+        int bad = d != 0 || on != n || (n && memcmp(chk, in, n)); free(chk); return bad ? -3 : 0; }
     switch (codec) {
     case CODEC_NONE: ref_buf_put(out, in, n); return 0;
     case CODEC_SNAPPY: {           /* literals of up to 300 bytes, and a copy element for runs of one repeated byte */
@@ -209,7 +213,7 @@ int ref_pq_write(ref_arena* a, const ref_write_req* rq, ref_buf* out, ref_pagein
             cm->encodings[cm->n_enc++] = L->level_encoding == ENC_BIT_PACKED ? ENC_BIT_PACKED : ENC_RLE;
             if (dict) cm->encodings[cm->n_enc++] = ENC_PLAIN;
             /* path */
-            { int chain[64], d = 0; for (int i = lv.leaf_schema_idx[l]; i > 0 && d < 64; i = parent[i]) chain[d++] = i; cm->n_path = d; cm->path = ref_alloc(a, sizeof(ref_bin) * (size_t)(d + 1)); for (int i = 0; i < d; i++) cm->path[i] = rq->schema[chain[d - 1 - i]].name; }
+            { int chain[256], d = 0; for (int i = lv.leaf_schema_idx[l]; i > 0 && d < 256; i = parent[i]) chain[d++] = i; cm->n_path = d; cm->path = ref_alloc(a, sizeof(ref_bin) * (size_t)(d + 1)); for (int i = 0; i < d; i++) cm->path[i] = rq->schema[chain[d - 1 - i]].name; }
             if (dict) {
                 idx = malloc(((size_t)c->nvalues + 1) * 4); dpos = malloc(((size_t)c->nvalues + 1) * 8);
                 for (int64_t i = 0; i < c->nvalues; i++) { int64_t k; for (k = 0; k < ndict; k++) if (val_eq(c, i, dpos[k], w)) break; if (k == ndict) dpos[ndict++] = i; idx[i] = (uint32_t)k; }
